@@ -66,18 +66,18 @@ package keeper
 
 // ---------------------------------------------------------------- storage accessors (assumed)
 
-//@ assumed func (k Keeper) GetValidator(ctx sdk.Ctx, addr sdk.Address) (validator types.Validator, found bool)
-//@   mode value
+// the three record accessors are verified against the store view (KVStore.Get/Set/Delete under a 0x21 key: value_types.go.txt)
+//@ func (k Keeper) GetValidator(ctx sdk.Ctx, addr sdk.Address) (validator types.Validator, found bool)
+//@   props C04 C05 C06 C07 C09
 //@   ensures found == pos.has[addr] && (found ==> validator == pos.vals[addr])
-// pos.stakesum is the sum of the (non-negative, valinv) stakes of the records that are not Unstaked, so it bounds each of them
 //@   ensures [sumbound] found && validator.Status != 0 ==> val(validator.StakedTokens) <= pos.stakesum
-//@ assumed func (k Keeper) SetValidator(ctx sdk.Ctx, validator types.Validator)
-//@   mode value
+//@ func (k Keeper) SetValidator(ctx sdk.Ctx, validator types.Validator)
+//@   props C04 C05 C06 C07 C09
 //@   modifies pos.vals[validator.Address], pos.has[validator.Address], pos.stakesum
 //@   ensures pos.vals[validator.Address] == validator && pos.has[validator.Address]
 //@   ensures pos.stakesum == old(pos.stakesum) - ite(old(pos.has[validator.Address]) && old(pos.vals[validator.Address]).Status != 0, val(old(pos.vals[validator.Address]).StakedTokens), 0) + ite(validator.Status != 0, val(validator.StakedTokens), 0)
-//@ assumed func (k Keeper) DeleteValidator(ctx sdk.Ctx, addr sdk.Address)
-//@   mode value
+//@ func (k Keeper) DeleteValidator(ctx sdk.Ctx, addr sdk.Address)
+//@   props C04 C05 C06 C07 C09
 //@   modifies pos.has[addr], pos.stakesum
 //@   ensures !pos.has[addr]
 //@   ensures pos.stakesum == old(pos.stakesum) - ite(old(pos.has[addr]) && old(pos.vals[addr]).Status != 0, val(old(pos.vals[addr]).StakedTokens), 0)
